@@ -4,6 +4,7 @@ import os
 import re
 from harness.common import facts as F
 from . import facts17
+from . import translate
 
 ID = 'C17'
 HERE = os.path.dirname(os.path.abspath(__file__))
@@ -27,25 +28,31 @@ ASSUMPTIONS = [
     'SCRIPT_NAME is valid UTF-8 (webob decodes it before pyramid sees it); query pairs are well-formed 2-tuples',
     'urllib.parse.quote/unquote/urlsplit/parse_qsl and webob host_url are modelled and validated by the run, not verified',
 ]
-TRUSTED = ['hand-written model coq/Model/C17.v (shape-pinned functions of url.py, encode.py, traversal.py, urldispatch.py, '
-           'config/views.py)', 'webob 1.8 Request.host_url/application_url/script_name (modelled)',
+TRUSTED = ['translator harness/c17/translate.py: its PRIMITIVE TABLE (which Python leaf means which primitive of coq/Model/C17.v) and '
+           'its mechanical statement-to-term rules',
+           'hand-written model coq/Model/C17.v of the functions that are not translated (shape-pinned functions of url.py, traversal.py, '
+           'urldispatch.py, config/views.py)', 'webob 1.8 Request.host_url/application_url/script_name (modelled)',
            'CPython urllib.parse + UTF-8 codec (modelled in Lib/Percent.v, Lib/Utf8.v, Model/C17.v; validated by the decoder/quote streams)']
-TECHNIQUE = ('Coq proofs over a hand-written Gallina model of the URL helpers + regenerated safe sets/tables/flags + '
-             'extracted-model differential correspondence + judging the real output with urllib.parse against the Coq spec')
-LEVEL_TEXT = ('Machine-checked, for inputs of any size: elements, query pairs and anchor round-trip through the reference decoder; '
+TECHNIQUE = ('Coq proofs about a Gallina program whose control flow is translated from the Python source on every run '
+             '(harness/c17/translate.py -> Gen/Code_C17.v: _partial_application_url, parse_url_overrides, urlencode, url_quote, '
+             'quote_plus, the four *_path helpers), proved equal to the hand-written reference model, + regenerated safe sets/tables '
+             'for the rest + extracted-model differential correspondence + judging the real output with urllib.parse against the Coq spec')
+LEVEL_TEXT = ('Machine-checked, for inputs of any size (the core functions as REGENERATED from the source on this run, proved equal to the reference model): elements, query pairs and anchor round-trip through the reference decoder; '
               'every produced character after the application URL is allowed by RFC 3986 in its component; overrides are honoured '
               'with default ports elided and _app_url first; the *_path forms equal the *_url forms minus scheme://authority.')
-LEVEL_NOTE = ('Trusted: Coq kernel; hand-written model validated by correspondence and shape pins; urllib.parse/webob modelled; '
-              'pattern parsing taken from the implementation\'s regexes; Python judge.')
+LEVEL_NOTE = ('Trusted: Coq kernel; the translator\'s PRIMITIVE TABLE and mechanical statement rules (fail-closed: anything outside '
+              'subset/table is a broken tie, never a guess); the hand-written model of the functions that are not translated '
+              '(route_url, resource_url, static_url, current_route_url, _join_elements, quote_path_segment, _compile_route, '
+              'StaticURLInfo.generate: shape-pinned, validated by correspondence); urllib.parse/webob modelled; pattern parsing '
+              'taken from the implementation\'s regexes; Python judge.')
 
 PIN_SPEC = {   # computed from /repo/src
 
-    'pyramid/url.py': ['parse_url_overrides', 'URLMethodsMixin._partial_application_url',
-                       'URLMethodsMixin._quoted_script_name', 'URLMethodsMixin.route_url', 'URLMethodsMixin.route_path',
-                       'URLMethodsMixin.resource_url', 'URLMethodsMixin.resource_path', 'URLMethodsMixin.static_url',
-                       'URLMethodsMixin.static_path', 'URLMethodsMixin.current_route_url',
-                       'URLMethodsMixin.current_route_path', '_join_elements', '_join_quoted_elements'],
-    'pyramid/encode.py': ['url_quote', 'quote_plus', 'urlencode'],
+    # translated functions (harness/c17/translate.py) carry no pin: parse_url_overrides, _partial_application_url,
+    # route_path, resource_path, static_path, current_route_path, encode.url_quote / quote_plus / urlencode
+    'pyramid/url.py': ['URLMethodsMixin._quoted_script_name', 'URLMethodsMixin.route_url',
+                       'URLMethodsMixin.resource_url', 'URLMethodsMixin.static_url',
+                       'URLMethodsMixin.current_route_url', '_join_elements', '_join_quoted_elements'],
     'pyramid/traversal.py': ['quote_path_segment', '_join_path_tuple', 'ResourceURL', 'resource_path_tuple',
                              'split_path_info', 'decode_path_info',
                              '_resource_path_list'],
@@ -60,8 +67,28 @@ _FACTS = {}
 def facts(src):
     problems = []
     summary = F.check_shapes(src, os.path.join(HERE, 'pins.json'), problems)
+    # the control flow of the core functions, regenerated from the source (harness/c17/translate.py) into a second
+    # generated file: it imports Model/C17.v, which imports Gen/Facts_C17.v
     try:
-        vals, bools, tables = facts17.extract(src, problems)
+        gen, tproblems, tsummary = translate.translate_tree(src)
+    except Exception as e:
+        gen, tproblems, tsummary = None, ['translator failed: %r' % e], {}
+    if gen is None:
+        gen, _p, _s = translate.translate_tree('/nonexistent')
+    problems += tproblems
+    from harness.common import build as _build
+    _build.write_if_changed(os.path.join(_build.COQ, 'Gen', 'Code_C17.v'), translate.HEADER + gen)
+    summary.update({'translated:' + k: v for k, v in tsummary.items()})
+    done = {k for k, v in tsummary.items() if v.startswith('translated')}
+    soft = set()
+    if 'gen_parse_url_overrides' in done:
+        soft.add('parse_url_overrides')
+    if {'gen_partial_application_url', 'gen_route_path', 'gen_resource_path', 'gen_static_path', 'gen_current_route_path'} <= done:
+        soft.add('script name / ports')
+    if {'gen_urlencode', 'gen_url_quote', 'gen_quote_plus'} <= done:
+        soft.add('encode.py')
+    try:
+        vals, bools, tables = facts17.extract(src, problems, soft)
     except Exception as e:
         problems.append('facts extractor failed: %r' % e)
         vals, bools, tables = dict(facts17.DEFAULTS), dict(facts17.BOOLS), dict(facts17.TABLES)
